@@ -43,7 +43,7 @@ func resetCaches() bool {
 // ---- contexts ----
 
 func sqlFor(ctx string, c Case) string {
-	e := renderStyle(c.Expr, c.Lower)
+	e := renderStyle2(c.Expr, c.Lower, c.Title)
 	switch ctx {
 	case "select":
 		return "SELECT " + e + " AS r FROM stream"
@@ -55,6 +55,11 @@ func sqlFor(ctx string, c Case) string {
 		return "SELECT CASE WHEN " + e + " THEN 1 ELSE 0 END AS r FROM stream"
 	case "arg":
 		name, extra, _ := strings.Cut(c.Wrap, ":")
+		if c.Title {
+			titleFns = true
+			name = fnName(name)
+			titleFns = false
+		}
 		if extra != "" {
 			return "SELECT " + name + "(" + e + ", " + extra + ") AS r FROM stream"
 		}
@@ -353,7 +358,7 @@ func runExpr(c Case, res *pbt.Result) {
 			perm[i] = i
 		}
 	}
-	text := renderStyle(c.Expr, c.Lower)
+	text := renderStyle2(c.Expr, c.Lower, c.Title)
 	applicable := []string{"select", "paren", "arg"}
 	if c.Expr.T == "b" {
 		applicable = allCtxs
@@ -523,6 +528,8 @@ func genCase(t *rapid.T) Case {
 	ws := wraps[ty]
 	c.Wrap = ws[s.pick("wrap", len(ws))]
 	c.Lower = s.pick("lower", 2) == 0
+	c.Title = s.pick("title", 8) == 0
+	s.collectLiterals(c.Expr)
 	c.Rows = s.rows()
 	c.Perm = s.perm(len(c.Rows))
 	avoidOpenFindings(&c)
